@@ -93,6 +93,9 @@ def cond_item(t, c):
     if c['op'] is not None:
         it['op'] = c['op']
         it['rhs'] = ast(c['rhs'])
+        if c.get('rhs_quoted'):
+            it['rhs'] = ['num', c['rhs'], 'dec']
+            it['rhs_quoted'] = c['rhs_quoted']
     return it
 
 
@@ -134,6 +137,10 @@ class History(RuleBasedStateMachine):
         c['notation'] = data.draw(st.sampled_from(['dec', 'dec', 'dec0', 'hex$', 'bin%', 'hex0x']))
         if c['notation'] != 'dec':
             self.feats.add('literal-notation:' + c['notation'])
+        if c['op'] is not None and isinstance(c['rhs'], int) and data.draw(st.integers(0, 5)) == 0:
+            # the number on the right written in quotes: both sides are numeric all the same
+            c['rhs_quoted'] = data.draw(st.sampled_from(['"', '"', "'"]))
+            self.feats.add('quoted-number-on-the-right')
         return c
 
     def _cond_plain(self, data):
